@@ -72,7 +72,13 @@ func genC20(seed uint64, run int, tier string) Scenario {
 		sc.Prod = append(sc.Prod, QOp{Op: "enq", Empty: r.IntN(8) == 0})
 	}
 	for i := 0; i < n-np; i++ {
-		sc.Cons = append(sc.Cons, QOp{Op: pick(r, "deq", "deq", "deq", "deqall", "requeue", "requeue2", "depth")})
+		op := pick(r, "deq", "deq", "deq", "deqall", "requeue", "requeue2", "depth", "depth")
+		sc.Cons = append(sc.Cons, QOp{Op: op})
+		if op == "depth" && r.IntN(2) == 0 {
+			// two looks at the depth in a row (nothing of the consumer's own in between)
+			sc.Cons = append(sc.Cons, QOp{Op: "depth"})
+			i++
+		}
 	}
 
 	return sc
